@@ -18,6 +18,9 @@ K7 over every concrete subclass of breezy/git/cache.py:GitShaMap and CacheUpdate
    type name) and raises on anything else; finish() exists;
  * write-group method triples (start/commit/abort_write_group) are overridden together or not at all, except for a
    tabled backend whose storage commits implicitly.
+Added while testing against seeded changes: Also: where an updater writes the sha -> key record it writes the key ->
+sha record on every continuation; per-write-group state reset by commit_write_group is reset by abort_write_group;
+lookup_git_sha is multi-valued in every backend.
 Does not decide: equality of the answers themselves (values stored by each backend).
 """
 ASSUMPTIONS = ["backends are compared through their class definitions; registration in the format registry is not part of the rule"]
